@@ -4,6 +4,7 @@ import (
 	"bytes"
 	"encoding/json"
 	"fmt"
+	"io"
 	"strconv"
 	"strings"
 	"sync/atomic"
@@ -13,6 +14,7 @@ import (
 
 	"verif/internal/enum"
 	"verif/internal/gen"
+	"verif/internal/ref/boxwalk"
 	"verif/internal/ref/tableref"
 	"verif/internal/vf"
 )
@@ -100,6 +102,24 @@ func c08Mdats(f *mp4.File) []*mp4.MdatBox {
 	return out
 }
 
+// c08DriftSig is the signature of the listed finding: DecodeFile advances its position bookkeeping by the re-derived
+// Size() of each top-level box, which is 8 bytes short for a non-mdat box written with a 64-bit header; every later
+// StartPos (and with it every read by file offset in in-memory mode, File.Size and the lazily re-encoded mdat header
+// position) is then off by 8.
+const c08DriftSig = "positions after a top-level box in 64-bit header form are 8 bytes short (reads by file offset differ between the modes)"
+
+func c08Fail(c *vf.Ctx, cs *c08Case, sig, clause string, detail interface{}) bool {
+	if cs != nil && cs.Spec != nil && cs.Spec.Free64 {
+		switch {
+		case sig == "ReadData", sig == "CopyData", sig == "CopySampleData", sig == "file size differs", sig == "lazy header+payload",
+			sig == "lazy mdat encode", sig == "lazy mdat encodeSW", strings.HasPrefix(sig, "call history: "),
+			strings.HasSuffix(sig, "rejects range ending at last byte"):
+			sig = c08DriftSig
+		}
+	}
+	return c.Fail(sig, clause, detail)
+}
+
 func c08Check(c *vf.Ctx, cs *c08Case, file []byte, pf *gen.ProgFile, workBufs []int) (ranges int64) {
 	det := func(extra map[string]interface{}) interface{} {
 		m := map[string]interface{}{"case": cs}
@@ -112,7 +132,7 @@ func c08Check(c *vf.Ctx, cs *c08Case, file []byte, pf *gen.ProgFile, workBufs []
 	fl, err2 := mp4.DecodeFile(bytes.NewReader(file), mp4.WithDecodeMode(mp4.DecModeLazyMdat))
 	if err1 != nil || err2 != nil {
 		if (err1 == nil) != (err2 == nil) {
-			c.Fail("decode disagreement", "both modes accept the same files", det(map[string]interface{}{"mem": fmt.Sprint(err1), "lazy": fmt.Sprint(err2)}))
+			c08Fail(c, cs, "decode disagreement", "both modes accept the same files", det(map[string]interface{}{"mem": fmt.Sprint(err1), "lazy": fmt.Sprint(err2)}))
 		} else {
 			vf.Harness("c08: generated file does not decode: %v", err1)
 		}
@@ -120,62 +140,90 @@ func c08Check(c *vf.Ctx, cs *c08Case, file []byte, pf *gen.ProgFile, workBufs []
 	}
 	// box tree, sizes, positions
 	if im, il := infoText(fm), infoText(fl); im != il {
-		c.Fail("info differs", "Info dump identical in both modes", det(map[string]interface{}{"mem": im, "lazy": il}))
+		c08Fail(c, cs, "info differs", "Info dump identical in both modes", det(map[string]interface{}{"mem": im, "lazy": il}))
 	}
 	if fm.Size() != fl.Size() || fm.Size() != uint64(len(file)) {
-		c.Fail("file size differs", "File.Size identical in both modes and == input length", det(map[string]interface{}{"mem": fm.Size(), "lazy": fl.Size(), "len": len(file)}))
+		c08Fail(c, cs, "file size differs", "File.Size identical in both modes and == input length", det(map[string]interface{}{"mem": fm.Size(), "lazy": fl.Size(), "len": len(file)}))
 	}
 	if len(fm.Children) != len(fl.Children) {
-		c.Fail("children differ", "same top-level boxes in both modes", det(nil))
+		c08Fail(c, cs, "children differ", "same top-level boxes in both modes", det(nil))
 		return
 	}
 	for i := range fm.Children {
 		a, b := fm.Children[i], fl.Children[i]
 		if a.Type() != b.Type() || a.Size() != b.Size() {
-			c.Fail("child differs", "same top-level box types and sizes in both modes", det(map[string]interface{}{"i": i, "mem": fmt.Sprint(a.Type(), a.Size()), "lazy": fmt.Sprint(b.Type(), b.Size())}))
+			c08Fail(c, cs, "child differs", "same top-level box types and sizes in both modes", det(map[string]interface{}{"i": i, "mem": fmt.Sprint(a.Type(), a.Size()), "lazy": fmt.Sprint(b.Type(), b.Size())}))
 		}
 		if a.Type() != "mdat" {
 			var ba, bb bytes.Buffer
 			_ = a.Encode(&ba)
 			_ = b.Encode(&bb)
 			if !bytes.Equal(ba.Bytes(), bb.Bytes()) {
-				c.Fail("non-mdat box differs", "identical non-mdat boxes in both modes", det(map[string]interface{}{"i": i}))
+				c08Fail(c, cs, "non-mdat box differs", "identical non-mdat boxes in both modes", det(map[string]interface{}{"i": i}))
+			}
+		}
+	}
+	// the per-box entry point: DecodeBoxLazyMdat on a reader positioned at the box, with the caller's start position as
+	// bookkeeping only (the true offset, 0, and an offset in an enclosing file), against DecodeBox on the same bytes
+	if top, err := boxwalk.WalkAll(file); err == nil {
+		for bi, tb := range top {
+			for _, sp := range []uint64{uint64(tb.Start), 0, uint64(tb.Start) + 1000} {
+				rs := bytes.NewReader(file)
+				_, _ = rs.Seek(int64(tb.Start), io.SeekStart)
+				var bl, bm mp4.Box
+				var el, em error
+				guard(c, "DecodeBoxLazyMdat", "decoding one box does not panic", func() interface{} { return det(map[string]interface{}{"box": bi, "start_pos": sp}) }, func() {
+					bl, el = mp4.DecodeBoxLazyMdat(sp, rs)
+					bm, em = mp4.DecodeBox(sp, bytes.NewReader(file[tb.Start:]))
+				})
+				pos, _ := rs.Seek(0, io.SeekCurrent)
+				ok := (el == nil) == (em == nil)
+				if ok && el == nil {
+					ok = bl.Type() == bm.Type() && bl.Size() == bm.Size() && pos == int64(tb.End())
+					if ml, isMdat := bl.(*mp4.MdatBox); ok && isMdat {
+						mmem := bm.(*mp4.MdatBox)
+						ok = ml.StartPos == sp && mmem.StartPos == sp && ml.PayloadAbsoluteOffset() == mmem.PayloadAbsoluteOffset() && ml.HeaderSize() == mmem.HeaderSize()
+					}
+				}
+				if !ok {
+					c08Fail(c, cs, "DecodeBoxLazyMdat differs from DecodeBox", "decoding one top-level box lazily gives the same box and leaves the reader at the end of the box, whatever start position the caller keeps", det(map[string]interface{}{"box": bi, "type": tb.Type, "start_pos": sp, "true_offset": tb.Start, "reader_after": pos, "box_end": tb.End(), "lazy_err": fmt.Sprint(el), "mem_err": fmt.Sprint(em)}))
+				}
 			}
 		}
 	}
 	mm, ml := c08Mdats(fm), c08Mdats(fl)
 	if len(mm) != len(ml) {
-		c.Fail("mdat count differs", "same mdat boxes in both modes", det(nil))
+		c08Fail(c, cs, "mdat count differs", "same mdat boxes in both modes", det(nil))
 		return
 	}
 	for k := range mm {
 		a, b := mm[k], ml[k]
 		if a.StartPos != b.StartPos || a.PayloadAbsoluteOffset() != b.PayloadAbsoluteOffset() || a.Size() != b.Size() || a.HeaderSize() != b.HeaderSize() || a.LargeSize != b.LargeSize {
-			c.Fail("mdat position differs", "mdat StartPos/payload offset/size/header identical in both modes", det(map[string]interface{}{"k": k, "mem": fmt.Sprint(a.StartPos, a.PayloadAbsoluteOffset(), a.Size()), "lazy": fmt.Sprint(b.StartPos, b.PayloadAbsoluteOffset(), b.Size())}))
+			c08Fail(c, cs, "mdat position differs", "mdat StartPos/payload offset/size/header identical in both modes", det(map[string]interface{}{"k": k, "mem": fmt.Sprint(a.StartPos, a.PayloadAbsoluteOffset(), a.Size()), "lazy": fmt.Sprint(b.StartPos, b.PayloadAbsoluteOffset(), b.Size())}))
 			continue
 		}
 		start0 := int(a.PayloadAbsoluteOffset())
 		plen := int(a.Size() - a.HeaderSize())
 		boxStart := int(a.StartPos)
 		if plen > 0 && !b.IsLazy() {
-			c.Fail("not lazy", "lazy mode leaves a non-empty mdat on disk", det(nil))
+			c08Fail(c, cs, "not lazy", "lazy mode leaves a non-empty mdat on disk", det(nil))
 		}
 		// lazily decoded mdat encodes to exactly its header
 		if plen > 0 {
 			var hb bytes.Buffer
 			err := b.Encode(&hb)
 			if err != nil || !bytes.Equal(hb.Bytes(), file[boxStart:start0]) {
-				c.Fail("lazy mdat encode", "encoding a lazily decoded mdat writes exactly its header", det(map[string]interface{}{"k": k, "got": vf.Hex(hb.Bytes()), "want": vf.Hex(file[boxStart:start0]), "err": fmt.Sprint(err)}))
+				c08Fail(c, cs, "lazy mdat encode", "encoding a lazily decoded mdat writes exactly its header", det(map[string]interface{}{"k": k, "got": vf.Hex(hb.Bytes()), "want": vf.Hex(file[boxStart:start0]), "err": fmt.Sprint(err)}))
 			}
 			sw := bitsSW(int(b.HeaderSize()))
 			err = b.EncodeSW(sw)
 			if err != nil || !bytes.Equal(sw.Bytes(), file[boxStart:start0]) {
-				c.Fail("lazy mdat encodeSW", "EncodeSW of a lazily decoded mdat writes exactly its header", det(map[string]interface{}{"k": k, "got": vf.Hex(sw.Bytes()), "err": fmt.Sprint(err)}))
+				c08Fail(c, cs, "lazy mdat encodeSW", "EncodeSW of a lazily decoded mdat writes exactly its header", det(map[string]interface{}{"k": k, "got": vf.Hex(sw.Bytes()), "err": fmt.Sprint(err)}))
 			}
 			// header + copied payload == original box
 			_, err = b.CopyData(int64(start0), int64(plen), bytes.NewReader(file), &hb)
 			if err != nil || !bytes.Equal(hb.Bytes(), file[boxStart:boxStart+int(a.Size())]) {
-				c.Fail("lazy header+payload", "header plus copied payload equals the original box", det(map[string]interface{}{"k": k, "err": fmt.Sprint(err)}))
+				c08Fail(c, cs, "lazy header+payload", "header plus copied payload equals the original box", det(map[string]interface{}{"k": k, "err": fmt.Sprint(err)}))
 			}
 		}
 		// every (start,size) inside the payload
@@ -191,7 +239,7 @@ func c08Check(c *vf.Ctx, cs *c08Case, file []byte, pf *gen.ProgFile, workBufs []
 					if em != nil && el == nil && last {
 						sig = "ReadData in-memory rejects range ending at last byte"
 					}
-					c.Fail(sig, "ReadData returns the same bytes (the file slice) in both modes", det(map[string]interface{}{"k": k, "start": start0 + s, "size": sz, "mem_err": fmt.Sprint(em), "lazy_err": fmt.Sprint(el), "mem": vf.Hex(dm), "lazy": vf.Hex(dl)}))
+					c08Fail(c, cs, sig, "ReadData returns the same bytes (the file slice) in both modes", det(map[string]interface{}{"k": k, "start": start0 + s, "size": sz, "mem_err": fmt.Sprint(em), "lazy_err": fmt.Sprint(el), "mem": vf.Hex(dm), "lazy": vf.Hex(dl)}))
 				}
 				var wm, wl bytes.Buffer
 				nm, em := a.CopyData(int64(start0+s), int64(sz), nil, &wm)
@@ -201,7 +249,7 @@ func c08Check(c *vf.Ctx, cs *c08Case, file []byte, pf *gen.ProgFile, workBufs []
 					if em != nil && el == nil && last {
 						sig = "CopyData in-memory rejects range ending at last byte"
 					}
-					c.Fail(sig, "CopyData writes the same bytes (the file slice) in both modes", det(map[string]interface{}{"k": k, "start": start0 + s, "size": sz, "mem_err": fmt.Sprint(em), "lazy_err": fmt.Sprint(el)}))
+					c08Fail(c, cs, sig, "CopyData writes the same bytes (the file slice) in both modes", det(map[string]interface{}{"k": k, "start": start0 + s, "size": sz, "mem_err": fmt.Sprint(em), "lazy_err": fmt.Sprint(el)}))
 				}
 			}
 		}
@@ -229,7 +277,7 @@ func c08Check(c *vf.Ctx, cs *c08Case, file []byte, pf *gen.ProgFile, workBufs []
 							el = fl.CopySampleData(&ol, bytes.NewReader(file), fl.Moov.Traks[ti], uint32(a), uint32(b), ws)
 						})
 						if em != nil || el != nil || !bytes.Equal(om.Bytes(), want) || !bytes.Equal(ol.Bytes(), want) {
-							c.Fail("CopySampleData", "CopySampleData returns the bytes of samples a..b in both modes for every work-buffer size", det(map[string]interface{}{"track": ti, "a": a, "b": b, "work": wb, "mem_err": fmt.Sprint(em), "lazy_err": fmt.Sprint(el), "mem": vf.Hex(om.Bytes()), "lazy": vf.Hex(ol.Bytes()), "want": vf.Hex(want)}))
+							c08Fail(c, cs, "CopySampleData", "CopySampleData returns the bytes of samples a..b in both modes for every work-buffer size", det(map[string]interface{}{"track": ti, "a": a, "b": b, "work": wb, "mem_err": fmt.Sprint(em), "lazy_err": fmt.Sprint(el), "mem": vf.Hex(om.Bytes()), "lazy": vf.Hex(ol.Bytes()), "want": vf.Hex(want)}))
 						}
 					}
 				}
@@ -327,7 +375,7 @@ func c08History(c *vf.Ctx, cs *c08Case, file []byte, pf *gen.ProgFile, seq []c08
 			continue
 		}
 		if em != nil || el != nil || !bytes.Equal(gm, want) || !bytes.Equal(gl, want) {
-			c.Fail("call history: "+op.Kind+" after "+seqKinds(seq[:i]), "reads and copies return the file bytes in both modes whatever was called before on the same reader", map[string]interface{}{"case": cs, "history": seq[:i+1], "mem_err": fmt.Sprint(em), "lazy_err": fmt.Sprint(el), "mem": vf.Hex(gm), "lazy": vf.Hex(gl), "want": vf.Hex(want)})
+			c08Fail(c, cs, "call history: "+op.Kind+" after "+seqKinds(seq[:i]), "reads and copies return the file bytes in both modes whatever was called before on the same reader", map[string]interface{}{"case": cs, "history": seq[:i+1], "mem_err": fmt.Sprint(em), "lazy_err": fmt.Sprint(el), "mem": vf.Hex(gm), "lazy": vf.Hex(gl), "want": vf.Hex(want)})
 			ok = false
 			break
 		}
@@ -398,6 +446,13 @@ func c08Specs(maxN int) []*gen.ProgSpec {
 						sp.ChunkOrder = append(sp.ChunkOrder, 1)
 					}
 					specs = append(specs, sp)
+					if layout >= 2 && !two {
+						// the same with a top-level box in 64-bit header form before the mdat and the moov
+						cp := *sp
+						cp.Tracks = append([]gen.ProgTrack{}, sp.Tracks...)
+						cp.Free64 = true
+						specs = append(specs, &cp)
+					}
 				}
 			}
 		})
@@ -411,7 +466,7 @@ func runC08(c *vf.Ctx) {
 		maxN = 9
 		c.SetBudget(8 * 60 * 1e9)
 	}
-	c.Rule = "generated progressive files: all chunkings (compositions) of N samples x {mdat before/after moov} x {32-bit, 64-bit mdat header} x {1,2 tracks, interleaved chunks} x lead-in 0/1 x trailing box {none, empty mdat (8/16-byte header), free}, sample sizes 1..3; fragmented files with 1-2 fragments; for each file BOTH decode modes, then every (start,size>=1) range inside every mdat payload through ReadData and CopyData, every sample interval 1<=a<=b<=N through CopySampleData with work buffers {0,1,2,3,5,8,payload,payload+1}, Info/Size/positions of both trees, lazy mdat Encode/EncodeSW; call histories on ONE shared reader (every sequence of 2 calls over the alphabet {ReadData, CopyData of every range of every mdat, CopySampleData of every interval with work buffer nil/2, caller seeks to 0/end} for payloads <= 9 (thorough: 13) bytes and for the fragmented files, every sequence of 3 for payloads <= 3 (5) bytes, each call compared with the file bytes); plus the segmenter example in default vs -lazy mode on every file of the C11 generator at every segment duration (identical output files). A case = one file (distinct by construction); 'ranges' counts the individual range/interval comparisons."
+	c.Rule = "generated progressive files: all chunkings (compositions) of N samples x {mdat before/after moov} x {32-bit, 64-bit mdat header} x {1,2 tracks, interleaved chunks} x lead-in 0/1 x a free box in 64-bit header form before moov and mdat x trailing box {none, empty mdat (8/16-byte header), free}, sample sizes 1..3; fragmented files with 1-2 fragments; for each file BOTH decode modes, then every (start,size>=1) range inside every mdat payload through ReadData and CopyData, every sample interval 1<=a<=b<=N through CopySampleData with work buffers {0,1,2,3,5,8,payload,payload+1}, Info/Size/positions of both trees, lazy mdat Encode/EncodeSW; DecodeBoxLazyMdat on every top-level box with three start-position bookkeeping values against DecodeBox; call histories on ONE shared reader (every sequence of 2 calls over the alphabet {ReadData, CopyData of every range of every mdat, CopySampleData of every interval with work buffer nil/2, caller seeks to 0/end} for payloads <= 9 (thorough: 13) bytes and for the fragmented files, every sequence of 3 for payloads <= 3 (5) bytes, each call compared with the file bytes); plus the segmenter example in default vs -lazy mode on every file of the C11 generator at every segment duration (identical output files). A case = one file (distinct by construction); 'ranges' counts the individual range/interval comparisons."
 	c.Bound = fmt.Sprintf("N <= %d samples per video track", maxN)
 	specs := c08Specs(maxN)
 	var frags []*c08FragSpec
